@@ -135,3 +135,161 @@ Proof.
   replace (mm * w * (mm * w)) with (mm * mm * (w * w)) by ring.
   apply Rmult_le_compat_r; [nra|exact C].
 Qed.
+
+(* ---- double layer / adjoint double layer: |(1 - z) e^z - 1| <= |z|^2 for |z| <= 1 ---- *)
+From Interval Require Import Tactic.
+From Coq Require Import String List.
+From BV Require Import Kernels.Invariance.
+
+(* e^a (a - 1) + 1 <= a^2 on [-1, 1] (equality at a = 0 and a = 1) *)
+Lemma exp_remainder2 a : -1 <= a <= 1 -> exp a * (a - 1) + 1 <= a * a.
+Proof.
+  intros Ha.
+  destruct (Rle_dec a 0) as [N|N].
+  - (* n(u) = M(-u), n' = u (2 - e^-u) >= 0 *)
+    pose proof (nondecr_from_0 (fun u => u * u - 1 + exp (- u) * (u + 1)) (fun u => u * (2 - exp (- u))) (- a) ltac:(lra)) as H.
+    cbv beta in H. rewrite Ropp_0, exp_0 in H. rewrite Ropp_involutive in H.
+    assert (0 * 0 - 1 + 1 * (0 + 1) <= - a * - a - 1 + exp a * (- a + 1)); [|nra].
+    apply H.
+    + intros u _. auto_derive; auto. ring.
+    + intros u Hu. assert (exp (- u) <= 1) by (rewrite <- exp_0; destruct (Req_dec u 0) as [Z|Z];
+        [subst u; rewrite Ropp_0; lra | left; apply exp_increasing; lra]).
+      apply Rmult_le_pos; lra.
+  - assert (Hp : 0 < a) by lra.
+    destruct (Rle_dec a (1/8)) as [S|S].
+    + (* M' = a (2 - e^a) >= 0 on [0, 1/8] *)
+      pose proof (nondecr_from_0 (fun u => u * u - 1 - exp u * (u - 1)) (fun u => u * (2 - exp u)) a ltac:(lra)) as H.
+      cbv beta in H. rewrite exp_0 in H.
+      assert (0 * 0 - 1 - 1 * (0 - 1) <= a * a - 1 - exp a * (a - 1)); [|lra].
+      apply H.
+      * intros u _. auto_derive; auto. ring.
+      * intros u Hu. assert (Hu2 : 0 <= u <= 1/8) by lra. assert (exp u <= 2) by (interval with (i_prec 64)).
+        apply Rmult_le_pos; lra.
+    + destruct (Rle_dec a (7/8)) as [T|T].
+      * assert (Hb : 1/8 <= a <= 7/8) by lra.
+        assert (0 <= a * a - 1 - exp a * (a - 1)) by (interval with (i_bisect a, i_prec 64, i_depth 20)). lra.
+      * (* n(u) = M(1 - u), n' = -(1-u)(2 - e^{1-u}) >= 0 while e^{1-u} >= 2 *)
+        pose proof (nondecr_from_0 (fun u => (1 - u) * (1 - u) - 1 - exp (1 - u) * ((1 - u) - 1))
+                                   (fun u => (1 - u) * (exp (1 - u) - 2)) (1 - a) ltac:(lra)) as H.
+        cbv beta in H. replace (1 - (1 - a)) with a in H by ring. rewrite Rminus_0_r in H.
+        assert ((1 * 1 - 1 - exp 1 * (1 - 1)) <= a * a - 1 - exp a * (a - 1)); [|lra].
+        apply H.
+        -- intros u _. auto_derive; auto. unfold Rminus. ring.
+        -- intros u Hu. assert (Hu2 : 7/8 <= 1 - u <= 1) by lra. set (w := 1 - u) in *.
+           assert (2 <= exp w) by (interval with (i_prec 64)). apply Rmult_le_pos; lra.
+Qed.
+
+Section Ray2.
+Variables a b : R.
+Hypothesis Hz : a * a + b * b <= 1.
+Let m := a * a + b * b.
+Definition hX (t : R) : R := exp (t * a) * ((1 - t * a) * cos (t * b) + t * b * sin (t * b)) - 1.
+Definition hY (t : R) : R := exp (t * a) * ((1 - t * a) * sin (t * b) - t * b * cos (t * b)).
+Definition cK (t : R) : R := if Req_EM_T a 0 then t * t / 2 else (exp (t * a) * (t * a - 1) + 1) / (a * a).
+
+Lemma ray2_bound c s : c * hX 1 + s * hY 1 <= sqrt (c * c + s * s) * m.
+Proof.
+  set (N := sqrt (c * c + s * s)).
+  assert (HN : 0 <= N) by apply sqrt_pos.
+  assert (Hm : 0 <= m) by (unfold m; nra).
+  assert (Ha : -1 <= a <= 1) by (unfold m in *; nra).
+  pose proof (nondecr_from_0 (fun u => N * m * cK u - (c * hX u + s * hY u))
+                             (fun u => u * (N * m * exp (u * a) + (c * gX2 a b u + s * gY2 a b u))) 1 ltac:(lra)) as H.
+  cbv beta in H.
+  assert (Z : N * m * cK 0 - (c * hX 0 + s * hY 0) = 0).
+  { unfold cK, hX, hY. rewrite !Rmult_0_l, exp_0, cos_0, sin_0. destruct (Req_EM_T a 0); [field|field; assumption]. }
+  rewrite Z in H.
+  assert (D0 : 0 <= N * m * cK 1 - (c * hX 1 + s * hY 1)).
+  { apply H.
+    - intros u _. unfold cK, hX, hY, gX2, gY2. destruct (Req_EM_T a 0) as [e|e].
+      + auto_derive; auto. rewrite e, ?Rmult_0_r, ?Rmult_0_l, ?exp_0. field.
+      + auto_derive; auto. field. exact e.
+    - intros u Hu.
+      pose proof (cauchy_schwarz2 (- c) (- s) (gX2 a b u) (gY2 a b u) (exp (u * a) * m)
+                    ltac:(apply Rmult_le_pos; [left; apply exp_pos|exact Hm]) (second_norm a b u)) as CS.
+      replace (- c * - c + - s * - s) with (c * c + s * s) in CS by ring. fold N in CS.
+      apply Rmult_le_pos; [lra|]. lra. }
+  assert (H1 : cK 1 <= 1).
+  { unfold cK. destruct (Req_EM_T a 0) as [e|e]; [lra|].
+    rewrite !Rmult_1_l. pose proof (exp_remainder2 a Ha) as E.
+    apply (Rmult_le_reg_r (a * a)); [nra|]. unfold Rdiv. rewrite Rmult_assoc, Rinv_l by nra. lra. }
+  assert (N * m * cK 1 <= N * m) by (assert (0 <= N * m) by (apply Rmult_le_pos; assumption); nra).
+  lra.
+Qed.
+
+Lemma cexp_remainder2 : hX 1 * hX 1 + hY 1 * hY 1 <= m * m.
+Proof.
+  pose proof (ray2_bound (hX 1) (hY 1)) as B. set (X := hX 1) in *. set (Y := hY 1) in *.
+  assert (Hn : 0 <= X * X + Y * Y) by nra.
+  pose proof (sqrt_pos (X * X + Y * Y)) as Hs. pose proof (sqrt_sqrt _ Hn) as Hss.
+  set (N := sqrt (X * X + Y * Y)) in *.
+  assert (Hm : 0 <= m) by (unfold m; nra).
+  assert (N <= m). { destruct (Req_dec N 0) as [Z|Z]; [lra|]. assert (0 < N) by lra. nra. }
+  rewrite <- Hss. nra.
+Qed.
+End Ray2.
+
+(* (i k r - 1) e^{i k r} L  differs from  -L  by at most |L| |k|^2 r^2 *)
+Lemma helm_grad_remainder L r p0 p1 : 0 < r -> (p0 * p0 + p1 * p1) * (r * r) <= 1 ->
+  (fst (helm_grad L r p0 p1) + L) * (fst (helm_grad L r p0 p1) + L) + snd (helm_grad L r p0 p1) * snd (helm_grad L r p0 p1)
+  <= (L * ((p0 * p0 + p1 * p1) * (r * r))) * (L * ((p0 * p0 + p1 * p1) * (r * r))).
+Proof.
+  intros Hr Hk. unfold helm_grad; cbn [fst snd].
+  set (a := - p1 * r). set (b := p0 * r).
+  assert (Hz : a * a + b * b <= 1) by (unfold a, b; nra).
+  pose proof (cexp_remainder2 a b Hz) as C. unfold hX, hY in C. rewrite !Rmult_1_l in C.
+  replace (exp (- p1 * r)) with (exp a) by reflexivity. replace (p0 * r) with b by reflexivity.
+  replace ((p0 * p0 + p1 * p1) * (r * r)) with (a * a + b * b) by (unfold a, b; ring).
+  replace (- 1 - p1 * r) with (- (1 - a)) by (unfold a; ring).
+  set (X := exp a * ((1 - a) * cos b + b * sin b) - 1) in *. set (Y := exp a * ((1 - a) * sin b - b * cos b)) in *.
+  replace (- (1 - a) * (cos b * exp a * L) - b * (sin b * exp a * L) + L) with (- L * X) by (unfold X; ring).
+  replace (b * (cos b * exp a * L) + - (1 - a) * (sin b * exp a * L)) with (- L * Y) by (unfold Y; ring).
+  set (mm := a * a + b * b) in *.
+  replace (- L * X * (- L * X) + - L * Y * (- L * Y)) with ((X * X + Y * Y) * (L * L)) by ring.
+  replace (L * mm * (L * mm)) with (mm * mm * (L * L)) by ring.
+  apply Rmult_le_compat_r; [nra|exact C].
+Qed.
+
+(* complex k, |k| r <= 1:  |K_dl,helm - K_dl,lap| <= |k|^2/(4 pi) |n_y.(y-x)|/r  and  |K_adl,helm - K_adl,lap| <= |k|^2/(4 pi) |n_x.(y-x)|/r *)
+Lemma helmholtz_dl_adl_small_complex_k x0 x1 x2 y0 y1 y2 nx0 nx1 nx2 ny0 ny1 ny2 kr ki p q :
+  (x0, x1, x2) <> (y0, y1, y2) ->
+  let r := sqrt (r2 x0 x1 x2 y0 y1 y2) in
+  (kr * kr + ki * ki) * (r * r) <= 1 ->
+  let bound (d : R) := ((kr * kr + ki * ki) / (4 * PI) * (d / r)) * ((kr * kr + ki * ki) / (4 * PI) * (d / r)) in
+  let dl := helmholtz_double_layer_regular x0 x1 x2 y0 y1 y2 nx0 nx1 nx2 ny0 ny1 ny2 kr ki in
+  let ldl := fst (laplace_double_layer_regular x0 x1 x2 y0 y1 y2 nx0 nx1 nx2 ny0 ny1 ny2 p q) in
+  let adl := helmholtz_adjoint_double_layer_regular x0 x1 x2 y0 y1 y2 nx0 nx1 nx2 ny0 ny1 ny2 kr ki in
+  let ladl := fst (laplace_adjoint_double_layer_regular x0 x1 x2 y0 y1 y2 nx0 nx1 nx2 ny0 ny1 ny2 p q) in
+  (fst dl - ldl) * (fst dl - ldl) + snd dl * snd dl <= bound (dotd x0 x1 x2 y0 y1 y2 ny0 ny1 ny2) /\
+  (fst adl - ladl) * (fst adl - ladl) + snd adl * snd adl <= bound (dotd x0 x1 x2 y0 y1 y2 nx0 nx1 nx2).
+Proof.
+  intros Hne r Hk bound dl ldl adl ladl.
+  assert (Hr : 0 < r) by (exact (sqrt_r2_pos _ _ _ _ _ _ Hne)).
+  pose proof PI_RGT_0 as Pp.
+  assert (F1 := kernel_has_form "helmholtz_double_layer_regular" G_helm_dl 2 _ ltac:(simpl; auto 20) eq_refl
+                  x0 x1 x2 y0 y1 y2 nx0 nx1 nx2 ny0 ny1 ny2 kr ki Hne).
+  assert (F2 := kernel_has_form "laplace_double_layer_regular" G_lap_dl 2 _ ltac:(simpl; auto 20) eq_refl
+                  x0 x1 x2 y0 y1 y2 nx0 nx1 nx2 ny0 ny1 ny2 p q Hne).
+  assert (F3 := kernel_has_form "helmholtz_adjoint_double_layer_regular" G_helm_adl 2 _ ltac:(simpl; auto 20) eq_refl
+                  x0 x1 x2 y0 y1 y2 nx0 nx1 nx2 ny0 ny1 ny2 kr ki Hne).
+  assert (F4 := kernel_has_form "laplace_adjoint_double_layer_regular" G_lap_adl 2 _ ltac:(simpl; auto 20) eq_refl
+                  x0 x1 x2 y0 y1 y2 nx0 nx1 nx2 ny0 ny1 ny2 p q Hne).
+  unfold dl, ldl, adl, ladl, bound. rewrite F1, F2, F3, F4. fold r.
+  unfold G_helm_dl, G_lap_dl, G_helm_adl, G_lap_adl; cbn [fst snd].
+  set (a := dotd x0 x1 x2 y0 y1 y2 ny0 ny1 ny2). set (b := dotd x0 x1 x2 y0 y1 y2 nx0 nx1 nx2).
+  assert (R3 : r * r * r <> 0) by (repeat apply Rmult_integral_contrapositive_currified; lra).
+  split.
+  - pose proof (helm_grad_remainder (c4 * a / (r * r * r)) r kr ki Hr Hk) as B.
+    replace (fst (helm_grad (c4 * a / (r * r * r)) r kr ki) - - (c4 * a / (r * r * r)))
+      with (fst (helm_grad (c4 * a / (r * r * r)) r kr ki) + c4 * a / (r * r * r)) by ring.
+    replace ((kr * kr + ki * ki) / (4 * PI) * (a / r)) with (c4 * a / (r * r * r) * ((kr * kr + ki * ki) * (r * r)))
+      by (unfold c4; field; repeat split; lra).
+    exact B.
+  - pose proof (helm_grad_remainder (- (c4 * b / (r * r * r))) r kr ki Hr Hk) as B.
+    replace (fst (helm_grad (- (c4 * b / (r * r * r))) r kr ki) - c4 * b / (r * r * r))
+      with (fst (helm_grad (- (c4 * b / (r * r * r))) r kr ki) + - (c4 * b / (r * r * r))) by ring.
+    replace (((kr * kr + ki * ki) / (4 * PI) * (b / r)) * ((kr * kr + ki * ki) / (4 * PI) * (b / r)))
+      with ((- (c4 * b / (r * r * r)) * ((kr * kr + ki * ki) * (r * r))) * (- (c4 * b / (r * r * r)) * ((kr * kr + ki * ki) * (r * r))))
+      by (unfold c4; field; repeat split; lra).
+    exact B.
+Qed.
